@@ -52,6 +52,9 @@ func VH_C15_RoundTrip() {
 	if err != nil {
 		return
 	}
+	// the importer owns its state: scrubbing (or reusing) the blob buffer after
+	// the import must not reach into the imported stream
+	copy(blob, make([]byte, len(blob)))
 	vAssert(t.gcm != nil && t.encrypted, "imported-stream-encrypting")
 	vAssertBytesEqual(t.encryptKey, s.encryptKey, "key")
 	vAssert(t.encryptIV == s.encryptIV && t.decryptIV == s.decryptIV, "ivs")
@@ -108,8 +111,16 @@ func VH_C15_RoundTrip() {
 	vAssert(fl2 == 0, "flag2")
 	vAssertBytesEqual(got2, d, "imported-stream-reads-what-peer-sent")
 	// the imported stream is exportable again (induction over hand-offs)
-	_, err3 := t.ExportCryptoState()
+	blob2, err3 := t.ExportCryptoState()
 	vAssert(err3 == nil, "re-exportable-after-exchange")
+	if err3 == nil {
+		u, err4 := NewStreamWithCryptoState(&vhConn{}, blob2)
+		vAssert(err4 == nil, "second-hand-off-imports")
+		if err4 == nil {
+			vAssertBytesEqual(u.encryptKey, key, "second-hand-off-carries-the-session-key")
+			vAssert(u.encryptCounter == t.encryptCounter && u.decryptCounter == t.decryptCounter, "second-hand-off-carries-the-counters")
+		}
+	}
 	vCover("handoff-continues-session")
 }
 
